@@ -729,8 +729,16 @@ def overwrite_and_gzip(repo, col):
                 kind = _gz_name_kind(fn, c.func.value)
                 ptxt = norm(c.func.value)
                 ok = kind not in ("appended", "replaced")
-                col.add(rule + ".gz-name", fn, ptxt[:60], ok, "" if ok else
-                        "a .gz name is read without decompression", node=c)
+                # the receiver has to be the path itself: a record or a list
+                # element whose `open` member is something else is not decided
+                from .dataflow import single_defs as _sd, expand as _ex
+                rtxt = norm(_ex(c.func.value, _sd(fn.node)))
+                direct = ".with_name(" in rtxt or ".with_suffix(" in rtxt \
+                    or "'.gz'" in rtxt
+                col.add(rule + ".gz-name", fn, ptxt[:60], ok or not direct,
+                        "" if ok else
+                        "a .gz name is read without decompression", node=c,
+                        undecided=not ok and not direct)
     # defaults: chunks overwrite, files refuse
     sc = repo.func("file_accessor", "FileAccessor.store_chunk")
     sf = repo.func("file_accessor", "FileAccessor.store_file")
